@@ -12,5 +12,20 @@ for x in f:
 s = re.sub(r"(<!-- BEGIN FINDINGS TABLE[^>]*-->\n).*?(<!-- END FINDINGS TABLE -->)", lambda m: m.group(1) + "\n".join(rows) + "\n" + m.group(2), s, flags=re.S)
 rep = subprocess.run([sys.executable, os.path.join(ROOT, "lib", "seedtool.py"), "report"], stdout=subprocess.PIPE, text=True).stdout
 s = re.sub(r"(<!-- BEGIN SEEDED TABLE[^>]*-->\n).*?(<!-- END SEEDED TABLE -->)", lambda m: m.group(1) + rep + m.group(2), s, flags=re.S)
+import glob
+rows = []
+for pf in sorted(glob.glob(os.path.join(ROOT, "props", "*.json"))):
+    d = json.load(open(pf))
+    pid = d["id"]
+    kn = [x["id"] for x in f if x["property"] == pid and x["status"] == "known"]
+    fx = [x["id"] for x in f if x["property"] == pid and x["status"] == "fixed"]
+    rows.append("### %s as built\n" % pid)
+    rows.append("* Theorems (%d, all closed under the global context): %s." % (len(d.get("required_theorems", [])), ", ".join("`%s`" % t for t in d.get("required_theorems", []))))
+    rows.append("* Guards / assumptions of the statements: " + ("; ".join(a.replace("\n", " ") for a in d.get("assumptions", [])) or "none") + ".")
+    rows.append("* Partial clauses: " + ("; ".join(d.get("partial_clauses", [])) or "none") + ".")
+    rows.append("* Tested only (runtime residue): " + ("; ".join(d.get("tested_only_clauses", [])) or "none") + ".")
+    rows.append("* Modelled, not verified (additions to the trusted base): " + ("; ".join(d.get("trusted_base", [])) or "none") + ".")
+    rows.append("* Findings: known %s; fixed %s. Details, model/code correspondence table and mutation trials: `notes/%s.md`.\n" % (", ".join(kn) or "none", ", ".join(fx) or "none", pid))
+s = re.sub(r"(<!-- BEGIN ASBUILT[^>]*-->\n).*?(<!-- END ASBUILT -->)", lambda m: m.group(1) + "\n".join(rows) + "\n" + m.group(2), s, flags=re.S)
 open(p, "w").write(s)
 print("DESIGN.md tables refreshed")
